@@ -10,3 +10,12 @@ def issue_lists(tier):
             issues = [{"code": f"C{k}", "message": "m", "severity": s} for k, s in enumerate(combo)]
             for sev in (1, 10, 0):
                 yield {"issues_list": issues, "severity": sev}
+
+
+def issue_lists_only(tier):
+    seen = set()
+    for case in issue_lists(tier):
+        key = tuple(i["severity"] for i in case["issues_list"])
+        if key not in seen:
+            seen.add(key)
+            yield {"issues_list": case["issues_list"]}
